@@ -57,6 +57,8 @@ def links(res):
         inc = m[len(LINK_NAMES)]
         want += "(inc@%s)" % dec(inc.split(";")[0]) if inc != "?" else ""
         want += "s@%s" % dec(m[len(LINK_NAMES) + 1].split(";")[0]) if m[len(LINK_NAMES) + 1] != "?" else ""
+        if j.get("inline_first"):
+            want += "L@inline"   # the inline module declared before the external one
         for nm, o in zip(LINK_NAMES, m[:len(LINK_NAMES)]):
             if o.startswith("S"):
                 want += "[%s@%s]" % (nm, dec(o[1:]))
